@@ -158,3 +158,70 @@ def corr_from_ode(ctx, driver, cases, results):
             all(numeval.close(Fraction(a[k]), Fraction(c["real"][k])) for k in ("inhom", "nonlin", "reconstituted"))
         if not ok:
             ctx.tie_break("corr:from-ode", {"case": case["indict"], "symbol": c["symbol"], "model": a, "impl": c["real"]})
+
+
+def corr_pipeline(ctx, driver, cases, results):
+    """the symbolic end-to-end model (`Pipeline.analyse`: expand, split, x' = A x + b + c, dependency graph, demotions,
+    worklist, partition, numeric right-hand sides) vs the real analysis, for inputs in the Laurent-polynomial fragment:
+    order of x, the three verdict stages, zero patterns and values of A, b, c at the case's rational point, the symbols
+    handed to the two sub-systems, and the value of every numeric update expression"""
+    ops = []
+    for case, res in zip(cases, results):
+        if not isinstance(res, dict):
+            continue
+        if res.get("pipeline_error"):
+            ctx.cov.setdefault("harness_errors", []).append("pipeline bridge: " + res["pipeline_error"])
+            ctx.tie_break("harness-error:pipeline-bridge", {"case": case["indict"], "error": res["pipeline_error"]})
+            continue
+        pc = res.get("pipeline_case")
+        if not pc or "values" not in res or "point" not in res or "x" not in res:
+            ctx.count("pipeline_skipped")
+            continue
+        point = [str(res["point"].get(q, "1")) for q in pc["symbols"]]
+        ops.append((case, res, pc, {"n": pc["n"], "time": pc["time"], "entries": pc["entries"], "point": point}))
+    if driver is None or not ops:
+        return
+    ans = driver.ask([("pipeline", o[3]) for o in ops])
+    for (case, res, pc, payload), a in zip(ops, ans):
+        ctx.count("corr_pipeline")
+        bad = []
+        if "xs" not in a:
+            ctx.tie_break("corr:pipeline", {"case": case["indict"], "model": a})
+            continue
+        x = res["x"]
+        mx = [pc["symbols"][i] for i in a["xs"]]
+        if mx != x:
+            bad.append("order of x: model %r, impl %r" % (mx, x))
+        else:
+            n = len(x)
+            for k in ("verdict0", "verdict1", "verdict2"):
+                if k in res and a.get(k) is not None and list(a[k]) != list(res[k]):
+                    bad.append("%s: model %r, impl %r" % (k, a[k], res[k]))
+            v = res["values"]
+            for i in range(n):
+                for j in range(n):
+                    if not numeval.close(Fraction(a["A"][i][j]), Fraction(v["A"][i][j])):
+                        bad.append("A[%s,%s]: model %s, impl %s" % (x[i], x[j], a["A"][i][j], v["A"][i][j]))
+                if not numeval.close(Fraction(a["b"][i]), Fraction(v["b"][i])):
+                    bad.append("b[%s]: model %s, impl %s" % (x[i], a["b"][i], v["b"][i]))
+                if not numeval.close(Fraction(a["c"][i]), Fraction(v["c"][i])):
+                    bad.append("c[%s]: model %s, impl %s" % (x[i], a["c"][i], v["c"][i]))
+            subs = res.get("sub_symbols") or []
+            if "verdict2" in res and not res.get("stopped") and subs:
+                m_an = [x[i] for i in a["analytic"]]
+                m_nu = [x[i] for i in a["numeric"]]
+                want = [s_ for s_ in (m_an, m_nu) if s_]
+                if sorted(map(sorted, subs)) != sorted(map(sorted, want)) and not case.get("flags", {}).get("disable_analytic_solver"):
+                    bad.append("sub-systems: model %r, impl %r" % (want, subs))
+            nv = res.get("numeric_values") or {}
+            for i, val in a.get("numeric_rhs", []):
+                name = x[i]
+                if name in nv and nv[name] is not None:
+                    ctx.count("corr_pipeline_numeric_rhs")
+                    if not numeval.close(Fraction(val), Fraction(nv[name])):
+                        bad.append("numeric update of %s: model %s, impl %s" % (name, val, nv[name]))
+                ur = (res.get("user_rhs_values") or {}).get(name)
+                if ur is not None and not numeval.close(Fraction(val), Fraction(ur)):
+                    bad.append("numeric right-hand side of %s: model %s, user's text %s" % (name, val, ur))
+        if bad:
+            ctx.tie_break("corr:pipeline", {"case": case["indict"], "flags": case.get("flags"), "differences": bad[:8], "point": res.get("point")})
